@@ -1,6 +1,7 @@
 -- Root of the `Verif` library: models, lemmas and property theorems.
 import Verif.Model.KV
 import Verif.Lemmas.KV
+import Verif.Lemmas.KVCache
 import Verif.Props.C17
 import Verif.Model.Seed
 import Verif.Lemmas.Seed
